@@ -102,6 +102,13 @@ def run(ctx):
                 out = cm.repopulate_empty_clusters(st)
             except RuntimeError as e:
                 err, out = e, None
+            except Exception as e:
+                ctx.violation("impl-violation", f"repopulation raised unexpected {type(e).__name__}: {e}", c,
+                              {"site": "unexpected-exception"})
+                ctx.case((tuple(c.get("sizes", labels)), m, tuple(spreads)), nontrivial=True)
+                impl.append(None)
+                lines.append(f"needy {K} {show_list(labels)}")
+                continue
         # ---- caller's state not modified
         after = tu.snapshot_state(st)
         if not tu.snapshots_equal(before, after) or before_ids != (id(st.clusters), [id(x) for x in st.clusters], id(st.point_labels)):
@@ -165,7 +172,10 @@ def run(ctx):
                  sample={"K": K, "m": m, "sizes": sizes, "spreads": spreads, "donors_used": used,
                          "error": err is not None} if needy and len(ctx.samples) < 5 and used else None)
     outs = ctx.driver.run(lines)
-    for (c, err, out, used, rec_order, draws), mo in zip(impl, outs):
+    for item, mo in zip(impl, outs):
+        if item is None:
+            continue
+        (c, err, out, used, rec_order, draws) = item
         parts = mo.split(" ")
         if err is not None:
             got = "err - " + show_list(used)
